@@ -68,6 +68,14 @@ def run_cases(ck, res, n_cases, n_interval):
         kind = r.choice(['expr', 'expr', 'probe', 'nested'])
         nrows = r.randint(1, 5)
         pts = {l: [dy(r, -1.5, 1.5, 4) for _ in range(nrows)] for l in leaves}
+        if ci % 4 == 3:
+            # the whole batch on a coordinate (hyper)plane / at the origin: intermediate derivatives such as d(x*x)/dx = 2x
+            # vanish on EVERY row while the operand still depends on x -- the next derivative must not be cut off (C03/i)
+            for l in leaves:
+                if r.random() < 0.6:
+                    pts[l] = [0.0] * nrows
+            if all(any(v != 0.0 for v in pts[l]) for l in leaves):
+                pts[leaves[0]] = [0.0] * nrows
         env = {l: enga.col(torch, pts[l]) for l in leaves}
         wrt = r.choice(leaves)
         probes = {}
